@@ -125,7 +125,8 @@ def run_rules(ctx, chk):
         sites = [bb for bb, t, fn in common.user_calls(b) if fn and atomic_kind(mir.callee_name(fn)) in ATOMIC_WRITES]
         if not sites:
             continue
-        from .startup_model import is_reader_new
+        from .startup_model import is_reader_new, init_reader_open
+        init_reader_open(fb)
         eng = common.mk_engine(fb, inline_depth=8, no_inline=is_reader_new)
         for p in eng.run(b):
             for e in classify_effects(p):
